@@ -82,6 +82,9 @@ func (prop) Generate(rng *core.Rand, tier string, emit func(string)) {
 	for c := 0; c < n/8; c++ {
 		genMatcher(rng.Fork(), emit)
 	}
+	for c := 0; c < n/8; c++ {
+		genHTTP2(rng.Fork(), emit)
+	}
 	for c := 0; c < n; c++ {
 		var sb strings.Builder
 		np := rng.Intn(9)
@@ -206,6 +209,9 @@ func (prop) Run(line string) core.Outcome {
 	}
 	if len(f) == 8 && f[0] == "http" {
 		return runHTTP(line, f)
+	}
+	if len(f) == 9 && f[0] == "http2" {
+		return runHTTP2(line, f)
 	}
 	if len(f) == 7 && f[0] == "httpm" {
 		return runMatcher(line, f)
